@@ -88,3 +88,31 @@ Example C12_update_single_key :
   md_update [([97],[49]); ([98],[50]); ([97],[51])] [([97],[120])] = [([97],[120]); ([98],[50])].
 Proof. vm_compute. reflexivity. Qed.
 Print Assumptions C12_update_single_key.
+
+(** Tie to the source by translation: the four query operations of yarl/_url.py - with_query,
+    extend_query (the walrus tests, the "&" join), update_query (its chain of type tests in source
+    order, MultiDict(self._parsed_query) + update + the serialiser chosen per type, the exception
+    types) and without_query_params (set(names) & self.query.keys(), the early return of self, the
+    filtered pairs handed to with_query) - are re-read from the working tree on every run and
+    proved equal to the model functions on every URL and argument.  The model's single query
+    argument stands for the pair of star-args and keyword arguments, which these methods only pass on whole. *)
+From Yarl Require Import Model.GenTypes Model.GenQTypes Generated.UrlGen Proofs.GenQueryProofs.
+Theorem C12_source_with_extend_query : forall (B : backend) (u : url) (q : qarg),
+  gen_with_query B u q = with_query B u q /\ gen_extend_query B u q = extend_query B u q.
+Proof. intros B u q. split; [apply gen_with_query_ok|apply gen_extend_query_ok]. Qed.
+Print Assumptions C12_source_with_extend_query.
+Theorem C12_source_update_query : forall (B : backend) (u : url) (q : qarg),
+  gen_update_query B u q = update_query B u q.
+Proof. exact gen_update_query_ok. Qed.
+Print Assumptions C12_source_update_query.
+Theorem C12_source_without_query_params : forall (B : backend) (u : url) (names : list str),
+  gen_without_query_params B u names = without_query_params B u names.
+Proof. exact gen_without_query_params_ok. Qed.
+Print Assumptions C12_source_without_query_params.
+
+(** ... and the serialisers of yarl/_query.py they end in (statement: C02_source_query_functions) *)
+From Yarl Require Import Generated.QueryGen Proofs.GenQueryFnsProofs.
+Theorem C12_source_get_str_query : forall (B : backend) (exact_dict exact_str : bool) (q : qarg),
+  gen_get_str_query B exact_dict exact_str q = get_query B q.
+Proof. exact gen_get_str_query_ok. Qed.
+Print Assumptions C12_source_get_str_query.
